@@ -76,6 +76,15 @@ def scen_map():
         m = pool.MapResult(p._cache, chunksize, length, None, None)
         m._ack(0, 900.0, a.pid)
         m._ack(1, 901.0, b.pid)
+        what = 'map of %d items in chunks of %d' % (length, chunksize)
+        if not (len(m._worker_pid) == len(m._accepted) == len(m._time_accepted) == length):
+            out.append('%s: after the two chunks were accepted the ownership record has %d / %d / %d entries for %d items' % (
+                what, len(m._worker_pid), len(m._accepted), len(m._time_accepted), length))
+            break
+        owners = [a.pid] * min(chunksize, length) + [b.pid] * max(0, min(2 * chunksize, length) - chunksize)
+        if m._worker_pid[:len(owners)] != owners:
+            out.append('%s: owners recorded after the ACKs of chunks 0 and 1: %r (expected %r)' % (what, m._worker_pid, owners))
+            break
         m._set(0, (True, ['r%d' % k for k in range(chunksize)]))   # worker A delivered its chunk ...
         a.exitcode = pool.EX_RECYCLE           # ... and exits normally (maxtasksperchild reached)
         p._join_exited_workers()
